@@ -16,6 +16,10 @@ BIG_FAMS = "grid:12:12,cube:6,K:14,Kb:8:8,torus:7:7,brick:8:10,subgrid:6:6,wheel
 HUGE_FAMS = "grid:20:20,cube:8,K:20"
 
 
+def lcg_menu(ns, ratios, seeds):
+    return ",".join("lcg:%d:%d:%d" % (n, int(n * r), s) for n in ns for r in ratios for s in range(seeds))
+
+
 def builds():
     return vlib.build_many([
         dict(name="meta_real", src="meta.cpp"),
@@ -38,7 +42,9 @@ def run(tier):
             (shim, "small G(2..4) x A2 on shims: 5 MPI entry points P=2 + TBB variants, menu transformations", [["--mode", "small", "--n", n, "--alpha", "A2", "--perms", "menu", "--orders", "menu", "--unions", "few",
                                                                                                           "--variants", "signed_mpi,fvs_mpi,fvs_tbb_mpi,iso_mpi,iso_tbb_mpi,signed_tbb,fvs_tbb,iso_tbb"] for n in range(2, 5)]),
             (real, "large menu (small families), 15 images each", [["--mode", "large", "--families", SMALL_FAMS, "--patterns", "U,M2,M3"]]),
-            (real, "large menu (mid families), 3 images each", [["--mode", "large", "--families", MID_FAMS, "--patterns", "U,M3", "--few-images"]])]
+            (real, "large menu (mid families), 3 images each", [["--mode", "large", "--families", MID_FAMS, "--patterns", "U,M3", "--few-images"]]),
+            (real, "fixed menu of 960 pseudo-random sparse graphs n=8..24 x 2 pseudo-random weightings, 3 images each (renumbering + insertion order), 6 variants",
+             [["--mode", "large", "--families", lcg_menu((8, 10, 12, 14, 16, 18, 20, 24), (1.3, 1.6, 2.0), 40), "--patterns", "R9x2", "--few-images"]])]
     if tier == "thorough":
         plan += [(real, "small G(5) x A2, menu renumberings/orders, few unions", [["--mode", "small", "--n", 5, "--alpha", "A2", "--perms", "menu", "--orders", "menu", "--unions", "few"]]),
                  (real, "small G(4) x A3, all transformations", [["--mode", "small", "--n", 4, "--alpha", "A3"]]),
@@ -46,6 +52,8 @@ def run(tier):
                  (real, "large menu (mid families), 15 images each", [["--mode", "large", "--families", MID_FAMS, "--patterns", "U,M2,M3"]]),
                  (real, "large menu (big families), 3 images each", [["--mode", "large", "--families", BIG_FAMS, "--patterns", "U,M3", "--few-images", "--ref-limit", 3000000]]),
                  (shim, "large menu on shims (MPI P=3)", [["--mode", "large", "--families", SMALL_FAMS, "--patterns", "U,M3", "--few-images", "--P", 3]]),
+                 (real, "fixed menu of 4000 pseudo-random graphs n=7..30 x 3 weightings, 15 images each",
+                  [["--mode", "large", "--families", lcg_menu((7, 9, 11, 13, 15, 17, 19, 22, 26, 30), (1.2, 1.5, 1.8, 2.2), 100), "--patterns", "R9x3"]]),
                  (real, "large menu (huge: 20x20 grid, Q8, K20), 3 images, variants agree", [["--mode", "large", "--families", HUGE_FAMS, "--patterns", "U", "--few-images", "--ref-limit", 400000, "--workers", 9]])]
     for binary, bound, arglists in plan:
         for args in arglists:
